@@ -53,10 +53,14 @@ impl Topic {
             messages,
             responder: send,
         };
+        #[cfg(deltio_verif)]
+        crate::verif::point("topic.publish_messages.before_send").await;
         self.sender
             .send(request)
             .await
             .map_err(|_| PublishMessagesError::Closed)?;
+        #[cfg(deltio_verif)]
+        crate::verif::point("topic.publish_messages.before_recv").await;
         recv.await.map_err(|_| PublishMessagesError::Closed)?
     }
 
@@ -70,10 +74,14 @@ impl Topic {
             paging,
             responder: send,
         };
+        #[cfg(deltio_verif)]
+        crate::verif::point("topic.list_subscriptions.before_send").await;
         self.sender
             .send(request)
             .await
             .map_err(|_| ListSubscriptionsError::Closed)?;
+        #[cfg(deltio_verif)]
+        crate::verif::point("topic.list_subscriptions.before_recv").await;
         recv.await.map_err(|_| ListSubscriptionsError::Closed)?
     }
 
@@ -87,10 +95,14 @@ impl Topic {
             subscription,
             responder: send,
         };
+        #[cfg(deltio_verif)]
+        crate::verif::point("topic.attach_subscription.before_send").await;
         self.sender
             .send(request)
             .await
             .map_err(|_| AttachSubscriptionError::Closed)?;
+        #[cfg(deltio_verif)]
+        crate::verif::point("topic.attach_subscription.before_recv").await;
         recv.await.map_err(|_| AttachSubscriptionError::Closed)?
     }
 
@@ -105,10 +117,14 @@ impl Topic {
             name,
             responder: send,
         };
+        #[cfg(deltio_verif)]
+        crate::verif::point("topic.remove_subscription.before_send").await;
         self.sender
             .send(request)
             .await
             .map_err(|_| RemoveSubscriptionError::Closed)?;
+        #[cfg(deltio_verif)]
+        crate::verif::point("topic.remove_subscription.before_recv").await;
         recv.await.map_err(|_| RemoveSubscriptionError::Closed)?
     }
 
@@ -116,10 +132,14 @@ impl Topic {
     pub async fn delete(&self) -> Result<(), DeleteError> {
         let (send, recv) = oneshot::channel();
         let request = TopicRequest::Delete { responder: send };
+        #[cfg(deltio_verif)]
+        crate::verif::point("topic.delete.before_send").await;
         self.sender
             .send(request)
             .await
             .map_err(|_| DeleteError::Closed)?;
+        #[cfg(deltio_verif)]
+        crate::verif::point("topic.delete.before_recv").await;
         recv.await.map_err(|_| DeleteError::Closed)?
     }
 }
